@@ -137,7 +137,11 @@ namespace occa {
   void device::setup(const occa::json &props) {
     free();
 
-    const std::string mode_ = props["mode"];
+    // Resolve the mode before reading any mode-specific entry: the given name is
+    // case-insensitive, may be missing, or may name a mode that is not enabled
+    // (all of which fall back to an existing mode)
+    mode_t *modePtr = getModeFromProps(props);
+    const std::string mode_ = modePtr->name();
 
     occa::json deviceProps = (
       getObjectSpecificProps(mode_, "device", settings())
@@ -148,7 +152,7 @@ namespace occa {
     deviceProps["memory"] = initialObjectProps(mode_, "memory", props);
     deviceProps["stream"] = initialObjectProps(mode_, "stream", props);
 
-    setModeDevice(occa::newModeDevice(deviceProps));
+    setModeDevice(modePtr->newDevice(deviceProps));
 
     // Create an initial stream
     setStream(createStream());
